@@ -104,11 +104,12 @@ func genPlan(t *rapid.T) interface{} {
 	case "meta":
 		kinds = []string{"snapshot", "read", "read"}
 		nm := rapid.IntRange(5, 60).Draw(t, "ncmds")
+		bias := metacmd.GenBias(t, "bias")
 		for i := 0; i < nm; i++ {
-			p.Cmds = append(p.Cmds, metacmd.GenCmd(t, fmt.Sprintf("c%d", i)))
+			p.Cmds = append(p.Cmds, metacmd.GenCmdBiased(t, fmt.Sprintf("c%d", i), bias))
 		}
 	case "pool":
-		kinds = []string{"get-put", "get-put", "get-unusable", "get-double-close", "sleep", "close-pool"}
+		kinds = []string{"get-put", "get-put", "get-unusable", "get-double-close", "sleep", "close-pool", "close-in-put-window"}
 		p.PoolMax = rapid.IntRange(1, 3).Draw(t, "poolmax")
 		p.Idle = rapid.SampledFrom([]int{0, 1, 5}).Draw(t, "idle")
 	}
@@ -851,12 +852,50 @@ func execPool(run *core.Run, p *plan) {
 		return
 	}
 	var shared atomic.Value
+	var windowMu sync.Mutex
+	defer verifhook.SetYield(nil)
 	nc := len(p.Clients)
 	ok := runClients(run, nc, 30*time.Minute, func(c int) {
 		for oi, o := range p.Clients[c] {
 			switch o.Kind {
 			case "sleep":
 				time.Sleep(time.Duration(o.N) * 700 * time.Millisecond)
+			case "close-in-put-window":
+				// The pool is closed while this client's connection is on its
+				// way back into it: between put's "is the pool still open"
+				// and its hand-over of the connection.
+				if !windowMu.TryLock() {
+					continue
+				}
+				conn, err := pool.Get()
+				if err != nil {
+					windowMu.Unlock()
+					continue
+				}
+				var fired atomic.Bool
+				gid := curGoroutine()
+				closed := make(chan struct{})
+				verifhook.SetYield(func(ev string, args ...interface{}) {
+					if ev != "pool.put.sending" || curGoroutine() != gid || fired.Swap(true) {
+						return
+					}
+					go func() { pool.Close(); close(closed) }()
+					for i := 0; i < 300; i++ {
+						select {
+						case <-closed:
+							return
+						default:
+							runtime.Gosched()
+						}
+					}
+				})
+				conn.Close()
+				verifhook.SetYield(nil)
+				if fired.Load() {
+					<-closed
+					run.Probe("pool-closed-in-put-window")
+				}
+				windowMu.Unlock()
 			case "close-pool":
 				if o.Pick == 0 {
 					pool.Close()
@@ -1003,7 +1042,7 @@ func TestC19(t *testing.T) {
 		Bubble:         true,
 		Warmup:         func() { storesim.Warmup() },
 		Describe:       describe,
-		RequiredProbes: []string{"newfields-in-creation-window", "conflict-in-validation-window", "store-run", "handoff-run", "meta-run", "pool-run", "concurrent-read-checked", "concurrent-snapshot-checked", "handoff-points-delivered"},
+		RequiredProbes: []string{"newfields-in-creation-window", "conflict-in-validation-window", "store-run", "handoff-run", "meta-run", "pool-run", "pool-closed-in-put-window", "concurrent-read-checked", "concurrent-snapshot-checked", "handoff-points-delivered"},
 		Real:           []string{"tsdb.Store/Shard/tsm1 engine, cache, file store, compactor, index (inmem, tsi1) under real goroutines", "hh.NodeProcessor and queue with its retry loop", "meta store state machine (Apply, Snapshot, Persist) and Data.Clone", "coordinator bounded connection pool", "the Go race detector (binary built with -race)"},
 		Stub:           []string{"handoff target, pool connections, raft (commands are applied by one goroutine in order)"},
 		Assumptions:    []string{"which goroutine runs when is decided by the Go scheduler: a seed fixes the operations, their order per client and the pauses, not the interleaving; a violation is replayed by re-running the plan several times"},
